@@ -34,6 +34,13 @@ IRR_NEUTRAL = ["depth0", "empty_schedule", "maxirr0", "maxirrseason0"]
 def gen_case(rng, tier, idx):
     prof = dict(PROFILE)
     kind = rng.choice(["field", "field", "irr_neutral", "irr_off", "harvest", "combo", "combo"])
+    sweep = None
+    if idx % 8 == 7:
+        # systematic sweep of the neutral irrigation settings: (constant depth 0, empty schedule, daily maximum 0, seasonal maximum 0)
+        # x (threshold, interval, schedule, constant depth) by index, on a rain-fed base in a climate where irrigation would fire
+        kind = "irr_neutral"
+        sweep = (IRR_NEUTRAL[(idx // 8) % 4], [1, 2, 3, 5][(idx // 32) % 4])
+        prof.update({"archetypes": ["semiarid", "warm"], "station_p": 0.2, "sensible_planting_p": 0.9, "gw": 0.0})
     if kind in ("irr_neutral",) or (kind == "combo" and rng.random() < 0.5):
         prof["irr_methods"] = [0]
     wet = kind in ("field", "combo") and rng.random() < 0.5
@@ -75,7 +82,7 @@ def gen_case(rng, tier, idx):
     if spec["irr"]["method"] == 0:
         r = rng.random()
         if kind in ("irr_neutral", "combo") or r < 0.3:
-            toggles.append({"t": rng.choice(IRR_NEUTRAL), "args": {"method": rng.choice([1, 2, 3, 5]), "SMT": [rng.choice([40, 70, 90])] * 4,
+            toggles.append({"t": sweep[0] if sweep else rng.choice(IRR_NEUTRAL), "args": {"method": sweep[1] if sweep else rng.choice([1, 2, 3, 5]), "SMT": [rng.choice([40, 70, 90])] * 4,
                                                                  "IrrInterval": rng.choice([1, 3, 7]), "depth": rng.choice([5, 20]),
                                                                  "schedule_n": rng.choice([3, 10])}})
         elif kind == "irr_off" or r < 0.6:
